@@ -790,6 +790,46 @@ def run(p):
                 p.case('remove_matrixzeros', [s.label, str(c)])
                 check_editor(p, 'remove_matrixzeros', s, text, c, res, edit_common(s, c),
                              'remove_matrixzeros_sinex(file) at %s' % c, drop_zero=True)
+            # ---- the same path rewritten with another solution of the same shape (another adjustment of the same network layout:
+            #      same header line, same byte size — SINEX is fixed-width): each edit and each read is of the file as it is NOW
+            import copy as _copy
+            s2 = _copy.deepcopy(s)
+            ren = {}
+            for st in s2.sites:
+                if st.code not in ren:
+                    while True:
+                        c2 = ''.join(rng.choice(ALNUM) for _ in range(4))
+                        if c2 not in ('SOLU', 'CODE', 'SITE', 'FILE') and not c2.isdigit() and c2 not in ren.values() and c2 not in ren:
+                            break
+                    ren[st.code] = c2
+                st.code = ren[st.code]
+            for so in s2.solns:
+                so.code = ren[so.code]
+                so.params = [(t_, u_, c_, (v_ * rng.uniform(0.5, 0.99) if v_ != 0 else v_), sd_ * rng.uniform(0.5, 0.99))
+                             for (t_, u_, c_, v_, sd_) in so.params]
+            s2.M = [[v_ * 0.75 for v_ in row] for row in s2.M]
+            s2.label = s.label + '/twin'
+            ta, tb = render_input(s, None), render_input(s2, None)
+            if len(ta) == len(tb) and ta.split('\n', 1)[0] == tb.split('\n', 1)[0] and ta != tb:
+                c = clocks[4]
+                codes_a = sorted({st.code for st in s.sites})
+                pick = codes_a[:max(1, len(codes_a) // 2)] if len(codes_a) > 1 else []
+                if pick:
+                    run_editor('remove_stns', ta, c, pick)
+                    sites_b = [ren[x] for x in pick]
+                    res = run_editor('remove_stns', tb, c, sites_b)
+                    p.case('same_path_rewritten', [s2.label, sites_b])
+                    check_editor(p, 'remove_stns', s2, tb, c, res, remove_stns(s2, sites_b, c),
+                                 'remove_stns_sinex(file, %r) after the same path held another solution of the same size' % (sites_b,), sites_b)
+                run_editor('remove_matrixzeros', ta, c)
+                res = run_editor('remove_matrixzeros', tb, c)
+                p.case('same_path_rewritten', [s2.label, 'matrixzeros'])
+                check_editor(p, 'remove_matrixzeros', s2, tb, c, res, edit_common(s2, c),
+                             'remove_matrixzeros_sinex(file) after the same path held another solution of the same size', drop_zero=True)
+                check_readers(p, s, ta)
+                check_readers(p, s2, tb)
+            else:
+                p.stats.add('same_path_rewritten:twin-not-same-size')
             # ---- readers
             check_readers(p, s, text)
             # information only: zero lines written by remove_velocity are spelt with 'E'
